@@ -44,157 +44,164 @@ PAGE_LINKS = ['!' + p for p in NETWORK + WE_LINKS + PAGELINK_PAGING + MOST_LINKE
 
 MONO = ['R-MONOTONE-CALLERS', 'R-MONOTONE-POINTERS']
 WE_FILTERS = ['Traph.get_webentity_pagelinks_iter', 'Traph.paginate_webentity_pagelinks']
+# rule groups: necessary conditions shared by several properties
+TRIE = ['R-FRESH', 'R-DIRTY-WRITTEN', 'R-BST-AGREE', 'R-PARENT-PAIR', 'R-TAIL-PROTOCOL', 'R-READ-RESETS', 'R-CHUNK-LAST', 'R-LRU-ASSEMBLY'] + MONO
+LINKS = ['R-LINK-PAIR', 'R-HEAD-REPOINT', 'R-LINK-WALK', 'R-DIRECTION', 'R-NO-EARLY-EXIT']
+RESOLVE = ['R-TRACK-AGREE', 'R-OWN-ERROR', 'R-NO-STALE-CACHE', 'R-LRU-ASSEMBLY']
+WALK = ['R-RELEVANCE', 'R-STACK-BLOCKS', 'R-EVERY-PREFIX', 'R-NO-EARLY-EXIT']
 
-prop('C01', ['R-FRESH', 'R-DIRTY-WRITTEN'] + MONO + ['R-CRAWLED', 'R-PAGE-REPORT', 'R-READONLY', 'R-BST-AGREE', 'R-READ-RESETS', 'R-ARGS-HONOURED', 'R-ENUM-FILTERS', 'R-LRU-ASSEMBLY'],
-     'Typestate dataflow on per-function CFGs over the typed call graph: (R-FRESH) no trie-node copy is written back, or '
-     'handed to a callee that writes it, after a call that may rewrite trie blocks or a yield without an intervening '
-     'refresh/read; (R-DIRTY-WRITTEN) every mutated node reaches write() before rebind/reload/return; (R-MONOTONE) page and '
-     'crawled marks are never cleared and structural pointers are written only into empty slots by the allocation functions; '
-     '(R-CRAWLED) a page is marked crawled only under the request\'s crawled argument or as crawl-batch source; '
-     '(R-PAGE-REPORT) decision tables of add_page/__add_page: created-page reporting happens exactly on the path that flags a '
-     'new page; (R-READONLY) only write requests reach a store mutation.',
-     'no stale write-back, no lost flag update, page/crawled marks monotone, pointers append-only, crawled only on request, '
-     'reports count only newly flagged pages, queries cannot add pages',
-     'that the enumerated page set equals the submitted set for every insertion order (value statement)')
+RULESETS = {
+ 'C01': TRIE + ['R-CRAWLED', 'R-PAGE-REPORT', 'R-READONLY', 'R-ARGS-HONOURED', 'R-ENUM-FILTERS', 'R-ALLOC'],
+ 'C02': TRIE + ['R-GEOMETRY', 'R-ACCESSOR-TABLE', 'R-STORAGE-IFACE', 'R-STORAGE-SEM'],
+ 'C03': LINKS + ['R-ACCESSOR-TABLE', ('R-FILTER-AGREE', ['Traph.get_page_links']), 'R-FRESH', 'R-DIRTY-WRITTEN', ('R-NULL-HEAD', PAGE_LINKS), 'R-ARGS-HONOURED'],
+ 'C04': RESOLVE + ['R-BST-AGREE', 'R-TAIL-PROTOCOL', 'R-READ-RESETS', 'R-WE-ATTACH', 'R-DIRTY-WRITTEN', 'R-ARGS-HONOURED', 'R-PREFIX-EDIT', 'R-REFUSE-CLEAN'],
+ 'C05': WALK + RESOLVE + ['R-READ-RESETS', 'R-TAIL-PROTOCOL', 'R-ENUM-FILTERS', 'R-BST-AGREE'],
+ 'C06': ['R-LADDER-AGREE', 'R-TRACK-AGREE', 'R-RULES-TO-APPLY', 'R-ID', 'R-RULE-INSTALL', 'R-WE-ATTACH', 'R-VARIATIONS', 'R-BST-AGREE'],
+ 'C07': ['R-PROPAGATE', ('R-FILTER-AGREE', NETWORK), ('R-MEMO-KEY', NETWORK), ('R-NULL-HEAD', NETWORK), 'R-NO-STALE-CACHE', 'R-LRU-ASSEMBLY'] + LINKS,
+ 'C08': [('R-NULL-HEAD', WE_LINKS), ('R-FILTER-AGREE', WE_FILTERS), ('R-MEMO-KEY', ['!Traph.get_webentities_*']), 'R-NO-STALE-CACHE', 'R-DISTINCT-DEGREE',
+         'R-LRU-ASSEMBLY', 'R-ARGS-HONOURED'] + WALK + LINKS,
+ 'C09': [('R-TOKEN-PAIR', ['Traph.paginate_webentity_pages']), 'R-TOKEN-CODEC', 'R-ORDER', ('R-PAGINATE', ['Traph.paginate_webentity_pages'])] + WALK + MONO,
+ 'C10': [('R-TOKEN-PAIR', PAGELINK_PAGING), ('R-FILTER-AGREE', WE_FILTERS), ('R-MEMO-KEY', WE_FILTERS), ('R-NULL-HEAD', PAGELINK_PAGING), 'R-TOKEN-CODEC', 'R-ORDER',
+         ('R-PAGINATE', PAGELINK_PAGING), 'R-RELEVANCE', 'R-EVERY-PREFIX', 'R-NO-EARLY-EXIT', 'R-LINK-WALK'],
+ 'C11': ['R-OPEN-TABLE', 'R-CLEAR-AGREE', 'R-GEOMETRY', 'R-ID', 'R-DIRTY-WRITTEN', 'R-STORAGE-SEM', 'R-STORAGE-IFACE', 'R-RULE-INSTALL'],
+ 'C12': ['R-ID', 'R-DIRTY-WRITTEN', 'R-STORAGE-IFACE', 'R-STORAGE-SEM', 'R-REFUSE-CLEAN'],
+ 'C13': ['R-WE-ATTACH', 'R-ANCESTOR-FLAG', 'R-SKIP-CHILDLESS', 'R-HIERARCHY', 'R-FRESH', 'R-DIRTY-WRITTEN', 'R-EVERY-PREFIX', 'R-ARGS-HONOURED', 'R-NO-EARLY-EXIT'] + MONO,
+ 'C14': ['R-READONLY', 'R-WRITE-API'],
+ 'C15': ['R-STORAGE-IFACE', 'R-STORAGE-SEM', 'R-OPEN-TABLE', 'R-CLEAR-AGREE', 'R-READ-RESETS'],
+ 'C16': ['R-FRESH', 'R-DIRTY-WRITTEN', 'R-STACK-BLOCKS', 'R-NO-STALE-CACHE', ('R-FILTER-AGREE', NETWORK), ('R-MEMO-KEY', NETWORK), 'R-DIRECTION', 'R-LINK-PAIR'],
+ 'C17': ['R-VARIATIONS', 'R-LADDER-AGREE', 'R-ID', 'R-NO-STALE-CACHE'],
+ 'C18': ['R-OPEN-TABLE', 'R-POINTEE-FIRST', 'R-GEOMETRY', 'R-NONE-CHECK', 'R-STORAGE-IFACE', 'R-HEAD-REPOINT', 'R-FRESH', 'R-DIRTY-WRITTEN', 'R-TAIL-PROTOCOL'],
+ 'C19': ['R-CHUNK-LAST', 'R-ALLOC', 'R-GEOMETRY', 'R-METRICS', 'R-HEAD-REPOINT', 'R-LINK-PAIR', 'R-LINK-WALK', 'R-FRESH', 'R-DIRTY-WRITTEN', 'R-TAIL-PROTOCOL', 'R-READ-RESETS',
+         'R-BST-AGREE', 'R-STORAGE-SEM'],
+ 'C20': [('R-NULL-HEAD', MOST_LINKED), 'R-DISTINCT-DEGREE', 'R-TOPK', 'R-LINK-PAIR', 'R-LINK-WALK', 'R-HEAD-REPOINT'] + WALK,
+}
 
-prop('C02', ['R-BST-AGREE', 'R-PARENT-PAIR', 'R-GEOMETRY', 'R-TAIL-PROTOCOL', 'R-READ-RESETS', 'R-CHUNK-LAST', 'R-ACCESSOR-TABLE', 'R-STORAGE-IFACE', 'R-LRU-ASSEMBLY', 'R-STORAGE-SEM'] + MONO,
-     'Decision tables (abstract path execution) of the three sibling-search loops and of the insert attach code against the '
-     'strict stem order; parent/link pairing at the two allocation sites; constant folding of the struct formats and derived '
-     'constants; accessor/field tables computed from the node classes; writer/reader agreement of the tail protocol; '
-     'call-shape conformance of every storage call against every back-end that can be the receiver.',
-     'the three sibling searches and the insert side implement one strict order on full stems, bottom-up reconstruction follows '
-     'the pointers the insert wrote, the on-disk layout read is the layout written (payload 74 = 75p-1, tail flags, field '
-     'positions), multi-block reads are possible on every back-end, pointers are append-only',
-     'byte identity of reconstructed LRUs and the BST invariant on reachable files as value statements')
+TEXTS = {'C01': {'claim': 'no stale write-back, no lost flag update, page/crawled marks monotone, pointers append-only, crawled only on request, reports '
+                  'count only newly flagged pages, queries cannot add pages',
+         'explanation': 'Typestate dataflow on per-function CFGs over the typed call graph: (R-FRESH) no trie-node copy is written back, or handed '
+                        'to a callee that writes it, after a call that may rewrite trie blocks or a yield without an intervening refresh/read; '
+                        '(R-DIRTY-WRITTEN) every mutated node reaches write() before rebind/reload/return; (R-MONOTONE) page and crawled marks are '
+                        'never cleared and structural pointers are written only into empty slots by the allocation functions; (R-CRAWLED) a page is '
+                        "marked crawled only under the request's crawled argument or as crawl-batch source; (R-PAGE-REPORT) decision tables of "
+                        'add_page/__add_page: created-page reporting happens exactly on the path that flags a new page; (R-READONLY) only write '
+                        'requests reach a store mutation.',
+         'not_decided': 'that the enumerated page set equals the submitted set for every insertion order (value statement)'},
+ 'C02': {'claim': 'the three sibling searches and the insert side implement one strict order on full stems, bottom-up reconstruction follows the '
+                  'pointers the insert wrote, the on-disk layout read is the layout written (payload 74 = 75p-1, tail flags, field positions), '
+                  'multi-block reads are possible on every back-end, pointers are append-only',
+         'explanation': 'Decision tables (abstract path execution) of the three sibling-search loops and of the insert attach code against the '
+                        'strict stem order; parent/link pairing at the two allocation sites; constant folding of the struct formats and derived '
+                        'constants; accessor/field tables computed from the node classes; writer/reader agreement of the tail protocol; call-shape '
+                        'conformance of every storage call against every back-end that can be the receiver.',
+         'not_decided': 'byte identity of reconstructed LRUs and the BST invariant on reachable files as value statements'},
+ 'C03': {'claim': 'each submitted pair is recorded once per direction on every path, lists never lose their older part, the two directions never '
+                  'cross, a self-link is reported once as internal, no NULL head is dereferenced in page-level queries',
+         'explanation': 'Path counting over the loops that record a link batch (each pair once outbound, once inbound on every path), guard-fact '
+                        'obligations of LinkStore.add_links (prepend, repoint after write), forwarding of the direction switch at every call site, '
+                        'field tables of the two link heads, decision table of the page-level link filter, freshness of the page block that carries '
+                        'the heads.',
+         'not_decided': 'equality of reported weights with submission counts'},
+ 'C04': {'claim': 'deepest webentity on the walk wins identically on the insert and the query walk, attaching an attached prefix is refused, '
+                  'resolution fails with TraphException iff the walk saw no webentity, every edit is persisted',
+         'explanation': 'Decision tables of the per-stem tracking code of add_lru and follow_lru (sibling agreement), origin/guard dataflow of every '
+                        'set_webentity site, guard-fact tables of the resolution requests, mutate-then-write pairing of every prefix edit.',
+         'not_decided': 'the net effect of an arbitrary edit history as seen by the walk (value statement over histories)'},
+ 'C05': {'claim': 'the bounded walk stops exactly at nodes owned by a webentity other than the start, continues through their siblings, and the DFS '
+                  'and in-order variants agree; each visited block is re-read on pop',
+         'explanation': 'Decision tables of the loop bodies of webentity_dfs_iter and of the recursive in-order traversal against the relevance '
+                        'specification; structure of the traversal stacks.',
+         'not_decided': 'the partition statement itself'},
+ 'C06': {'claim': 'get_potential_prefix mirrors __add_page; strict "longer than E"; default rule only when K empty and E absent; variations always '
+                  'expanded; one id per creation; installing a rule flags, writes and re-inserts every page below the anchor',
+         'explanation': 'Decision tables of the creation ladder in __add_page and get_potential_prefix (sibling agreement and specification), of the '
+                        'candidate loop (strictly longer wins), of __create_webentity and of rule installation; tracking agreement; allocation '
+                        'obligations.',
+         'not_decided': 'what the regular expressions match'},
+ 'C07': {'claim': 'nearest webentity is propagated correctly, fast and slow variants drop/keep the same links, inbound is the same code with the '
+                  'other head, page tallies only under is_page and a source webentity',
+         'explanation': 'Decision table of dfs_with_webentity_iter (nearest webentity carried down), decision tables of the fast and slow network '
+                        'filters against one specification, direction forwarding, NULL-head guards.',
+         'not_decided': 'weight sums and transpose equality as values'},
+ 'C08': {'claim': 'no NULL head dereferenced (block 0 parses as a stub and fabricates a link), links kept iff (outbound and other webentity) or '
+                  '(internal and same webentity), inbound iff source webentity differs, degrees count distinct pages',
+         'explanation': 'NULL-head guards, decision tables of the per-webentity link filters, relevance tables of the bounded walk, de-duplicating '
+                        'iterators in degree counters, direction forwarding.',
+         'not_decided': 'exactness of the returned sets'},
+ 'C09': {'claim': 'the two halves of a token describe the same node, path digits and radices agree between writer and reader, ascending in-order '
+                  'emission with strict resume, same page set as the unpaginated query, nodes never move so a path stays valid',
+         'explanation': 'Pairing of the two token halves, writer/reader digit tables and radix constants of the path codec, emission order and '
+                        'strict resume filter of the in-order walk, relevance tables, append-only pointers.',
+         'not_decided': 'the k+1 look-ahead arithmetic and completeness at every cut'},
+ 'C10': {'claim': 'token halves advance together (also on link-less pages), same links as the unpaginated query for the same switches, no NULL head '
+                  'dereferenced',
+         'explanation': 'Pairing of the two token halves in the pagelink pagination loop, agreement of its link filter with the unpaginated query, '
+                        'NULL-head guard, token codec.',
+         'not_decided': 'counts per answer'},
+ 'C11': {'claim': 'reopen never truncates, create only when asked or when nothing exists, a single file or a partial block is refused, clear resets '
+                  'and rebuilds both structures, files stay whole numbers of blocks, reopen re-reads the header, no state lives only in a node copy',
+         'explanation': 'Decision table of Traph.__init__ (which files are opened how, when refused) and of Traph.clear; block geometry (every write '
+                        'is one packed block); header reload obligations; mutate-then-write pairing.',
+         'not_decided': 'equality of every observable answer before/after'},
+ 'C12': {'claim': 'single writer of the counter, write-through before the id is handed out, strictly increasing, one allocation per request shared '
+                  'by all attached prefixes, header preserved on reopen and rebuilt on clear',
+         'explanation': 'Who-may-call on the counter mutators, event-order dataflow in the allocator (increment, write-through, hand out), one '
+                        'allocation per request outside loops, header ensure/read obligations on open, rebuild on clear.',
+         'not_decided': '32-bit overflow of the counter'},
+ 'C13': {'claim': 'every path that can attach a prefix goes through add_lru(flag_can_have_child_webentities=True), which clears and persists the '
+                  'mark on every proper ancestor, existing or new; the mark is never set again; the shortcut never prunes siblings',
+         'explanation': 'Origin dataflow of every node that receives a webentity id; decision tables of both loops of add_lru (ancestor unmarking) '
+                        'with a linear-integer domain for `i < l - 1`; decision table of dfs_iter (shortcut prunes children only); who-may-call on '
+                        'the mark setters.',
+         'not_decided': 'exactness of the parent query (value statement)'},
+ 'C14': {'claim': 'no path from any query entry point to a mutation of either store (complete for the statement modulo A1-A2)',
+         'explanation': 'Typed call-graph reachability: from every read-only Traph entry point (names in the query families) no path of resolved '
+                        'calls reaches a storage-class method that mutates the store bytes, a truncating open(), or a direct mutation of a storage '
+                        'object; storage mutators are computed from the storage class bodies.',
+         'not_decided': 'nothing beyond A1-A2'},
+ 'C15': {'claim': 'every call shape used by node/header/store code is accepted by every back-end that can be the receiver; read/write return '
+                  'conventions and the read-cursor protocol agree; a memory index is set up like a freshly created file index',
+         'explanation': 'Signature conformance of every storage call site against every back-end class the typed receiver can be (protocol sites), '
+                        'back-end/guard correlation for facade sites, return conventions and cursor protocol of read(); decision table of the '
+                        'constructor (the in-memory branch is a fresh index).',
+         'not_decided': 'equality of answers for every history'},
+ 'C16': {'claim': 'every node cached across a yield point is refreshed before it is written; traversals keep block numbers and re-read',
+         'explanation': 'R-FRESH with every yield as an invalidation point; traversal stacks hold block numbers and re-read on pop; generators never '
+                        'write.',
+         'not_decided': 'schedule independence of the final state and the qualified-throughout bounds on answers'},
+ 'C17': {'claim': 'expansion cannot raise, the scheme rewrite touches only the leading scheme stem, the given prefix is listed first, automatic '
+                  'creation always expands and attaches the class under one id',
+         'explanation': 'List-length-set abstract interpretation and None-ness guard facts of helpers.lru_variations / https_variation; anchoring of '
+                        'the scheme test and rewrite; shape of the result list; both automatic creation sites expand; one id for all attachable '
+                        'variations.',
+         'not_decided': 'closure of the expansion (an algebraic law over byte strings)'},
+ 'C18': {'claim': 'a partial block or a single file is refused with the library error, a pointer is never on disk before its pointee, all writes are '
+                  'whole blocks, a block a cut may have removed is never unpacked unchecked',
+         'explanation': 'Decision table of the constructor (refusals), persisted-before-pointed typestate of every pointer store, block geometry, '
+                        'guard facts on every storage.read result.',
+         'not_decided': 'the behaviour at every cut of every history (crash points are not a syntactic object)'},
+ 'C19': {'claim': 'no block after the terminal chunk, allocation only on missing stems, re-adding takes the no-write path, one stub per link end',
+         'explanation': 'Reachability after the terminal chunk yield; who-may-allocate and decision tables of the insert path (found stems allocate '
+                        'and write nothing); block geometry; one stub per batch element.',
+         'not_decided': 'the closed-form block count'},
+ 'C20': {'claim': 'a page without inbound list contributes 0 and not the header block parsed as one stub; indegree counts distinct sources; the heap '
+                  'is keyed by indegree, trimmed only above k and drained in non-increasing order; the depth limit prunes children only',
+         'explanation': 'NULL-head guard and de-duplicating iterator of the indegree counter; heap key/trim/drain obligations; depth atom of the '
+                        'bounded walk.',
+         'not_decided': 'top-k optimality and order as values'}}
 
-prop('C03', ['R-LINK-PAIR', 'R-HEAD-REPOINT', 'R-DIRECTION', 'R-ACCESSOR-TABLE', ('R-FILTER-AGREE', ['Traph.get_page_links']), 'R-LINK-WALK', 'R-FRESH',
-             ('R-NULL-HEAD', PAGE_LINKS)],
-     'Path counting over the loops that record a link batch (each pair once outbound, once inbound on every path), guard-fact '
-     'obligations of LinkStore.add_links (prepend, repoint after write), forwarding of the direction switch at every call '
-     'site, field tables of the two link heads, decision table of the page-level link filter, freshness of the page block '
-     'that carries the heads.',
-     'each submitted pair is recorded once per direction on every path, lists never lose their older part, the two directions '
-     'never cross, a self-link is reported once as internal, no NULL head is dereferenced in page-level queries',
-     'equality of reported weights with submission counts')
+RULE_DOC = {}
 
-prop('C04', ['R-TRACK-AGREE', 'R-BST-AGREE', 'R-WE-ATTACH', 'R-OWN-ERROR', 'R-DIRTY-WRITTEN', 'R-ARGS-HONOURED', 'R-NO-STALE-CACHE', 'R-READ-RESETS', 'R-PREFIX-EDIT'],
-     'Decision tables of the per-stem tracking code of add_lru and follow_lru (sibling agreement), origin/guard dataflow of '
-     'every set_webentity site, guard-fact tables of the resolution requests, mutate-then-write pairing of every prefix edit.',
-     'deepest webentity on the walk wins identically on the insert and the query walk, attaching an attached prefix is refused, '
-     'resolution fails with TraphException iff the walk saw no webentity, every edit is persisted',
-     'the net effect of an arbitrary edit history as seen by the walk (value statement over histories)')
 
-prop('C05', ['R-RELEVANCE', 'R-STACK-BLOCKS', 'R-EVERY-PREFIX', 'R-NO-STALE-CACHE', 'R-READ-RESETS', 'R-ENUM-FILTERS', 'R-LRU-ASSEMBLY'],
-     'Decision tables of the loop bodies of webentity_dfs_iter and of the recursive in-order traversal against the relevance '
-     'specification; structure of the traversal stacks.',
-     'the bounded walk stops exactly at nodes owned by a webentity other than the start, continues through their siblings, and '
-     'the DFS and in-order variants agree; each visited block is re-read on pop',
-     'the partition statement itself')
+def _dedupe(rules):
+    out, seen = [], set()
+    for r in rules:
+        k = r if isinstance(r, str) else (r[0], tuple(r[1]))
+        if k not in seen:
+            seen.add(k)
+            out.append(r)
+    return out
 
-prop('C06', ['R-LADDER-AGREE', 'R-TRACK-AGREE', 'R-ID', 'R-RULE-INSTALL', 'R-WE-ATTACH'],
-     'Decision tables of the creation ladder in __add_page and get_potential_prefix (sibling agreement and specification), of '
-     'the candidate loop (strictly longer wins), of __create_webentity and of rule installation; tracking agreement; '
-     'allocation obligations.',
-     'get_potential_prefix mirrors __add_page; strict "longer than E"; default rule only when K empty and E absent; variations '
-     'always expanded; one id per creation; installing a rule flags, writes and re-inserts every page below the anchor',
-     'what the regular expressions match')
 
-prop('C07', ['R-PROPAGATE', ('R-FILTER-AGREE', NETWORK), ('R-MEMO-KEY', NETWORK), 'R-LINK-PAIR', 'R-LINK-WALK', 'R-DIRECTION', ('R-NULL-HEAD', NETWORK), 'R-NO-STALE-CACHE'],
-     'Decision table of dfs_with_webentity_iter (nearest webentity carried down), decision tables of the fast and slow network '
-     'filters against one specification, direction forwarding, NULL-head guards.',
-     'nearest webentity is propagated correctly, fast and slow variants drop/keep the same links, inbound is the same code '
-     'with the other head, page tallies only under is_page and a source webentity',
-     'weight sums and transpose equality as values')
-
-prop('C08', [('R-NULL-HEAD', WE_LINKS), ('R-FILTER-AGREE', WE_FILTERS), ('R-MEMO-KEY', ['!Traph.get_webentities_*']), 'R-NO-STALE-CACHE', 'R-EVERY-PREFIX', 'R-RELEVANCE', 'R-DISTINCT-DEGREE', 'R-DIRECTION', 'R-LINK-WALK', 'R-LRU-ASSEMBLY'],
-     'NULL-head guards, decision tables of the per-webentity link filters, relevance tables of the bounded walk, '
-     'de-duplicating iterators in degree counters, direction forwarding.',
-     'no NULL head dereferenced (block 0 parses as a stub and fabricates a link), links kept iff (outbound and other webentity) '
-     'or (internal and same webentity), inbound iff source webentity differs, degrees count distinct pages',
-     'exactness of the returned sets')
-
-prop('C09', [('R-TOKEN-PAIR', ['Traph.paginate_webentity_pages']), 'R-TOKEN-CODEC', 'R-ORDER', 'R-RELEVANCE', 'R-EVERY-PREFIX', ('R-PAGINATE', ['Traph.paginate_webentity_pages'])] + MONO,
-     'Pairing of the two token halves, writer/reader digit tables and radix constants of the path codec, emission order and '
-     'strict resume filter of the in-order walk, relevance tables, append-only pointers.',
-     'the two halves of a token describe the same node, path digits and radices agree between writer and reader, ascending '
-     'in-order emission with strict resume, same page set as the unpaginated query, nodes never move so a path stays valid',
-     'the k+1 look-ahead arithmetic and completeness at every cut')
-
-prop('C10', [('R-TOKEN-PAIR', PAGELINK_PAGING), ('R-FILTER-AGREE', WE_FILTERS), ('R-MEMO-KEY', WE_FILTERS), ('R-NULL-HEAD', PAGELINK_PAGING), 'R-TOKEN-CODEC', 'R-ORDER', 'R-EVERY-PREFIX', ('R-PAGINATE', PAGELINK_PAGING)],
-     'Pairing of the two token halves in the pagelink pagination loop, agreement of its link filter with the unpaginated '
-     'query, NULL-head guard, token codec.',
-     'token halves advance together (also on link-less pages), same links as the unpaginated query for the same switches, no '
-     'NULL head dereferenced',
-     'counts per answer')
-
-prop('C11', ['R-OPEN-TABLE', 'R-CLEAR-AGREE', 'R-GEOMETRY', 'R-ID', 'R-DIRTY-WRITTEN', 'R-STORAGE-SEM'],
-     'Decision table of Traph.__init__ (which files are opened how, when refused) and of Traph.clear; block geometry (every '
-     'write is one packed block); header reload obligations; mutate-then-write pairing.',
-     'reopen never truncates, create only when asked or when nothing exists, a single file or a partial block is refused, '
-     'clear resets and rebuilds both structures, files stay whole numbers of blocks, reopen re-reads the header, no state lives '
-     'only in a node copy',
-     'equality of every observable answer before/after')
-
-prop('C12', ['R-ID', 'R-DIRTY-WRITTEN', 'R-STORAGE-IFACE'],
-     'Who-may-call on the counter mutators, event-order dataflow in the allocator (increment, write-through, hand out), '
-     'one allocation per request outside loops, header ensure/read obligations on open, rebuild on clear.',
-     'single writer of the counter, write-through before the id is handed out, strictly increasing, one allocation per '
-     'request shared by all attached prefixes, header preserved on reopen and rebuilt on clear',
-     '32-bit overflow of the counter')
-
-prop('C13', ['R-WE-ATTACH', 'R-ANCESTOR-FLAG', 'R-SKIP-CHILDLESS', 'R-HIERARCHY', 'R-FRESH'] + MONO,
-     'Origin dataflow of every node that receives a webentity id; decision tables of both loops of add_lru (ancestor '
-     'unmarking) with a linear-integer domain for `i < l - 1`; decision table of dfs_iter (shortcut prunes children only); '
-     'who-may-call on the mark setters.',
-     'every path that can attach a prefix goes through add_lru(flag_can_have_child_webentities=True), which clears and persists '
-     'the mark on every proper ancestor, existing or new; the mark is never set again; the shortcut never prunes siblings',
-     'exactness of the parent query (value statement)')
-
-prop('C14', ['R-READONLY', 'R-WRITE-API'],
-     'Typed call-graph reachability: from every read-only Traph entry point (names in the query families) no path of '
-     'resolved calls reaches a storage-class method that mutates the store bytes, a truncating open(), or a direct '
-     'mutation of a storage object; storage mutators are computed from the storage class bodies.',
-     'no path from any query entry point to a mutation of either store (complete for the statement modulo A1-A2)',
-     'nothing beyond A1-A2')
-
-prop('C15', ['R-STORAGE-IFACE', 'R-STORAGE-SEM', 'R-OPEN-TABLE', 'R-CLEAR-AGREE', 'R-READ-RESETS'],
-     'Signature conformance of every storage call site against every back-end class the typed receiver can be (protocol '
-     'sites), back-end/guard correlation for facade sites, return conventions and cursor protocol of read(); decision table '
-     'of the constructor (the in-memory branch is a fresh index).',
-     'every call shape used by node/header/store code is accepted by every back-end that can be the receiver; read/write '
-     'return conventions and the read-cursor protocol agree; a memory index is set up like a freshly created file index',
-     'equality of answers for every history')
-
-prop('C16', ['R-FRESH', 'R-STACK-BLOCKS', 'R-NO-STALE-CACHE'],
-     'R-FRESH with every yield as an invalidation point; traversal stacks hold block numbers and re-read on pop; generators '
-     'never write.',
-     'every node cached across a yield point is refreshed before it is written; traversals keep block numbers and re-read',
-     'schedule independence of the final state and the qualified-throughout bounds on answers')
-
-prop('C17', ['R-VARIATIONS', 'R-LADDER-AGREE', 'R-ID'],
-     'List-length-set abstract interpretation and None-ness guard facts of helpers.lru_variations / https_variation; '
-     'anchoring of the scheme test and rewrite; shape of the result list; both automatic creation sites expand; one id for all '
-     'attachable variations.',
-     'expansion cannot raise, the scheme rewrite touches only the leading scheme stem, the given prefix is listed first, '
-     'automatic creation always expands and attaches the class under one id',
-     'closure of the expansion (an algebraic law over byte strings)')
-
-prop('C18', ['R-OPEN-TABLE', 'R-POINTEE-FIRST', 'R-GEOMETRY', 'R-NONE-CHECK', 'R-STORAGE-IFACE'],
-     'Decision table of the constructor (refusals), persisted-before-pointed typestate of every pointer store, block geometry, '
-     'guard facts on every storage.read result.',
-     'a partial block or a single file is refused with the library error, a pointer is never on disk before its pointee, all '
-     'writes are whole blocks, a block a cut may have removed is never unpacked unchecked',
-     'the behaviour at every cut of every history (crash points are not a syntactic object)')
-
-prop('C19', ['R-CHUNK-LAST', 'R-ALLOC', 'R-GEOMETRY', 'R-HEAD-REPOINT', 'R-LINK-PAIR', 'R-LINK-WALK', 'R-READ-RESETS', 'R-BST-AGREE', 'R-STORAGE-SEM'],
-     'Reachability after the terminal chunk yield; who-may-allocate and decision tables of the insert path (found stems '
-     'allocate and write nothing); block geometry; one stub per batch element.',
-     'no block after the terminal chunk, allocation only on missing stems, re-adding takes the no-write path, one stub per link end',
-     'the closed-form block count')
-
-prop('C20', [('R-NULL-HEAD', MOST_LINKED), 'R-DISTINCT-DEGREE', 'R-TOPK', 'R-RELEVANCE', 'R-EVERY-PREFIX', 'R-LINK-WALK'],
-     'NULL-head guard and de-duplicating iterator of the indegree counter; heap key/trim/drain obligations; depth atom of the '
-     'bounded walk.',
-     'a page without inbound list contributes 0 and not the header block parsed as one stub; indegree counts distinct sources; '
-     'the heap is keyed by indegree, trimmed only above k and drained in non-increasing order; the depth limit prunes children only',
-     'top-k optimality and order as values')
+for _pid, _rules in RULESETS.items():
+    _t = TEXTS[_pid]
+    prop(_pid, _dedupe(_rules), _t['explanation'], _t['claim'], _t['not_decided'])
